@@ -582,9 +582,21 @@ func ruleC18(c *Ctx) {
 			if !t.accepting(res.Root) {
 				continue
 			}
-			root, _ := docModel(t)
+			root, problems := docModel(t)
 			if root == nil {
 				continue
+			}
+			// the ID lives in the element's own attribute storage: a root whose Attr / Child slice is assigned from
+			// elsewhere (a shared template slice with spare capacity) lets a later message overwrite this one's ID
+			own := true
+			for _, p := range problems {
+				if strings.HasPrefix(p, "direct store to Element.") {
+					own = false
+					c.bad("C18-R1", fname, "message element owns its attribute storage", c.P.InstrPos(t.Instr), p+": the attribute list that receives the ID is not created by this call (shared backing storage makes IDs of distinct messages overwrite each other)")
+				}
+			}
+			if own {
+				c.ok("C18-R1", fname, "message element owns its attribute storage", c.P.InstrPos(t.Instr), "attributes only through CreateAttr on an element literal of this activation")
 			}
 			var ids []attrM
 			for _, a := range root.Attrs {
